@@ -18,11 +18,16 @@ fam "aw"   every fault script of atomic_write: each step (mkstemp, fdopen, every
 fam "seq"  histories of atomic writes / in-place same-size rewrites with a new
            mtime / silent same-size rewrites that keep the mtime / touches /
            deletes / restores with a preserved mtime, interleaved with etag() and
-           load() (also etag() calls during which the file changes between the
-           stat and the read), for .json/.yaml/.yml, include_mtime on and off.
+           load() (also etag() calls during which the file changes: after EVERY
+           file-system call the call makes on its path - os.stat, open, each read,
+           whatever a dry run of the implementation shows; symbol E@<k>:<change>),
+           for .json/.yaml/.yml, include_mtime on and off.
            Compared with the model: the equality pattern of the tags, None for a
-           missing file, load() result or exception class.  Judged directly when
-           the history satisfies the property's hypothesis.
+           missing file, load() result or exception class (a change before the
+           file is opened / read = the model's mid-call change; a change after the
+           old bytes were read = [etag; change]).  Judged directly when the
+           history satisfies the property's hypothesis; with in-call changes: every
+           etag() on a quiet file must equal the tag of a fresh FilePolicySource.
 fam "doc"  one content x one file name: format by extension, parse results and
            exception classes, schema validation on/off.
 fam "rw"   a reader thread (load()/etag() in a loop) against a writer thread
@@ -1684,7 +1689,10 @@ def run(chk):
         "(thorough 5) over {atomic write A/B(same size)/C, silent same-size rewrite, touch, delete, etag, load} x "
         "{.json,.yaml,.yml} x include_mtime, every history up to length 3 (thorough 4) over {restore with preserved "
         "mtime A/B, in-place rewrite, failed atomic write, delete, etag, etag with a change between stat and read, "
-        "load}, seeded random histories of length 5-14; non-trivial = at least one observation and one "
+        "load}, histories {7 cache states} x {etag with one of 8 changes landing after its k-th file-system call, every k "
+        "seen on a dry run of the implementation, and right after the call} x {quiet etags, return to the old file, "
+        "touch, load} x include_mtime (+ tiny chunk sizes: between two reads), "
+        "seeded random histories of length 5-14; non-trivial = at least one observation and one "
         "modification; plus tiny hashing chunk sizes and files larger than the default 512 KiB chunk (the latter "
         "judged directly, without the model).  doc: 26 contents x 14 file names x validate on/off.  rw: reader "
         "threads vs a writer.  "
@@ -1701,6 +1709,12 @@ def run(chk):
         "etag theorems carry the property's own hypothesis: along the history (size, mtime_ns) determines the "
         "content; and no change of the file between the os.stat and the read inside one etag() call "
         "(c16_midcall_change_refuted shows the cache is poisoned otherwise)",
+        "histories with a change inside an etag() call are outside the theorems; they are run against the model "
+        "(FileStore.etag_call's mid-call change, or [etag; change] when the call had already read the old bytes; torn "
+        "reads have no counterpart) and judged directly on the implementation: etag() on a quiet file = tag of a fresh "
+        "source, whenever (size, mtime_ns) determines the content along the history - except in the one situation "
+        "the refutation theorem describes (the file changed inside an earlier etag() before that call read it, the "
+        "file is back at the signature that call started from, and no etag() has since run at another signature)",
     ]
     cc = corpus_cases()
     chk.extra["corpus_cases"] = len(cc)
